@@ -71,7 +71,10 @@ def step_text(step):
         except ValueError:
             return x
     n = int(t[3])
-    return "%s %s" % (t[2], " ".join(dec(x) for x in t[4:4 + n]))
+    name = t[2]
+    if name.startswith(":"):
+        name = repr(bytes.fromhex(name[1:]).decode("latin1"))
+    return "%s %s" % (name, " ".join(dec(x) for x in t[4:4 + n]))
 
 
 def parse_model_out(out):
